@@ -444,7 +444,7 @@ def run(ctx):
             case = gen_planted.gen_noisy(rng)
         else:
             case = gen_planted.gen(rng, two_bands=True)
-        curves_corpus.run_dataset(ctx, PROPERTY, case, 'cli' if i < ncli else 'function', i, nontrivial=nontrivial)
+        curves_corpus.run_dataset(ctx, PROPERTY, case, 'cli' if i < ncli else 'function', i, nontrivial=nontrivial, with_reference=(i % 4 == 3))
 
 
 def replay(ctx, case, module=None):
